@@ -34,6 +34,8 @@ var poolPaths = []string{
 	"$missing", "$v", "$v.a", "$i + 1", "\"s\"", "null", "true", "1.5", "$v[*]", "$v ? (@ > 1)",
 	// last outside subscripts is rejected by the parser; nested last
 	"$[$[last]]", "$[last - 1]",
+	// the document value as the right operand
+	"$i < $.a", "1 <= $.a", "$v == $.a", "$[*] ? ($i > @)", "$.a.b > $.a.a", "$.keyvalue() ? (@.value > 1)",
 }
 
 func poolSize() int { return len(poolPaths) }
@@ -48,13 +50,13 @@ func poolDocSpec() nd.Spec {
 }
 
 func poolVarSpec() nd.Spec {
-	return nd.Spec{Kinds: nd.KNull | nd.KFloat | nd.KInt64 | nd.KString | nd.KArray, Depth: 1, Width: 1, StrLen: 1, ASCII: true}
+	return nd.Spec{Kinds: nd.KNull | nd.KFloat | nd.KInt64 | nd.KNumber | nd.KNumOOR | nd.KString | nd.KArray, Depth: 1, Width: 1, StrLen: 1, ASCII: true}
 }
 
 // poolCase draws a path, mode, document and variables.
 func poolCase() (src string, doc any, vars exec.Vars) {
 	src = modePrefix() + poolPaths[nd.Choice(len(poolPaths))]
 	doc = nd.JSON(poolDocSpec())
-	vars = exec.Vars{"i": nd.JSON(nd.Spec{Kinds: nd.KFloat | nd.KInt64}), "v": nd.JSON(poolVarSpec())}
+	vars = exec.Vars{"i": nd.JSON(nd.Spec{Kinds: nd.KFloat | nd.KInt64 | nd.KNumOOR}), "v": nd.JSON(poolVarSpec())}
 	return
 }
